@@ -155,3 +155,205 @@ theorem v0_run_exact_or_collision (U : List Bytes) : ∀ (ops : List Op) (a : Ac
     exact ih _ h1 h2 (fun o' ho' => hu o' (List.mem_cons_of_mem _ ho'))
 
 end Tmv.Mempool.Keyed
+
+namespace Tmv.Mempool.Keyed
+open Tmv Tmv.Mempool
+
+variable (key : Bytes → Bytes)
+
+theorem inv_removeV1 {U : List Bytes} {a : Acc} (hi : Inv key U a) (tx : Bytes) :
+    Inv key U (removeV1 key a tx) := by
+  unfold removeV1
+  split
+  · split
+    · exact inv_erase key hi tx _
+    · exact hi
+  · exact hi
+
+theorem removeV1_exact_or {U : List Bytes} {a : Acc} (hi : Inv key U a)
+    (hb : a.bytes = bytesOf a.entries ∨ Collision key U) (tx : Bytes) :
+    (removeV1 key a tx).bytes = bytesOf (removeV1 key a tx).entries ∨ Collision key U := by
+  rcases hb with hb | hc
+  · left
+    unfold removeV1
+    split
+    · split
+      · rename_i e hf
+        show a.bytes - (e.length : Int) = bytesOf (a.entries.eraseP _)
+        rw [bytesOf_eraseP_find _ _ e hf, hb]
+      · exact hb
+    · exact hb
+  · exact Or.inr hc
+
+/-- after a removal by key no entry with that key is left -/
+theorem no_key_after_erase {U : List Bytes} {a : Acc} (hi : Inv key U a) (tx : Bytes) :
+    ∀ e ∈ a.entries.eraseP (fun e => decide (key e = key tx)), key e ≠ key tx := by
+  intro e he heq
+  have hm : key e ∈ (a.entries.eraseP (fun e => decide (key e = key tx))).map key :=
+    List.mem_map_of_mem (f := key) he
+  rw [map_eraseP_key key (key tx) a.entries, heq] at hm
+  exact ((hi.nodup.mem_erase_iff).1 hm).1 rfl
+
+theorem removeV0_no_key {U : List Bytes} {a : Acc} (hi : Inv key U a) (tx : Bytes) :
+    ∀ e ∈ (removeV0 key a tx).entries, key e ≠ key tx := by
+  unfold removeV0
+  split
+  · exact no_key_after_erase key hi tx
+  · rename_i hn
+    intro e he heq
+    exact hn (hi.index.mem_iff.2 (heq ▸ List.mem_map_of_mem (f := key) he))
+
+theorem removeV1_no_key {U : List Bytes} {a : Acc} (hi : Inv key U a) (tx : Bytes) :
+    ∀ e ∈ (removeV1 key a tx).entries, key e ≠ key tx := by
+  unfold removeV1
+  split
+  · rename_i hk
+    obtain ⟨e0, hf, _, _⟩ := find_of_mem_keys key a.entries (key tx) (hi.index.mem_iff.1 hk)
+    simp only [hf]
+    exact no_key_after_erase key hi tx
+  · rename_i hn
+    intro e he heq
+    exact hn (hi.index.mem_iff.2 (heq ▸ List.mem_map_of_mem (f := key) he))
+
+/-- the entry the index holds for `key tx` is `tx` itself, or two submitted txs collide -/
+theorem entry_is_tx_or_collision {U : List Bytes} {a : Acc} (hi : Inv key U a) (tx : Bytes)
+    (hu : tx ∈ U) (hk : key tx ∈ a.index) : tx ∈ a.entries ∨ Collision key U := by
+  obtain ⟨e, _, hek, hel⟩ := find_of_mem_keys key a.entries (key tx) (hi.index.mem_iff.1 hk)
+  by_cases h : e = tx
+  · left; exact h ▸ hel
+  · right; exact ⟨e, hi.sub e hel, tx, hu, h, hek⟩
+
+theorem kcheck_acc (p : KPool) (tx : Bytes) (peer : Nat) (adm rm : Bool) :
+    (kcheck key p tx peer adm rm).acc = p.acc ∨ (kcheck key p tx peer adm rm).acc = admitTx key p.acc tx := by
+  unfold kcheck recordK
+  simp only
+  split
+  · left; split <;> rfl
+  · split
+    · left; rfl
+    · right; split <;> rfl
+
+theorem kdrop_acc (p : KPool) (e : Bytes) (rc : Bool) :
+    (kdrop key p e rc).acc = p.acc ∨ (kdrop key p e rc).acc = removeV1 key p.acc e := by
+  unfold kdrop
+  split
+  · right; rfl
+  · left; rfl
+
+/-- what one step of `KPool` does to the accounting core -/
+theorem kstepV0_acc (p : KPool) (op : KOp) :
+    (kstepV0 key p op).acc = p.acc ∨ (kstepV0 key p op).acc = admitTx key p.acc op.tx ∨
+    (kstepV0 key p op).acc = removeV0 key p.acc op.tx ∨ (kstepV0 key p op).acc = removeV1 key p.acc op.tx := by
+  cases op with
+  | check tx peer adm rm =>
+    rcases kcheck_acc key p tx peer adm rm with h | h
+    · exact Or.inl h
+    · exact Or.inr (Or.inl h)
+  | commit tx ok keep => exact Or.inr (Or.inr (Or.inl rfl))
+  | drop e rc =>
+    rcases kdrop_acc key p e rc with h | h
+    · exact Or.inl h
+    · exact Or.inr (Or.inr (Or.inr h))
+
+theorem kstepV1_acc (p : KPool) (op : KOp) :
+    (kstepV1 key p op).acc = p.acc ∨ (kstepV1 key p op).acc = admitTx key p.acc op.tx ∨
+    (kstepV1 key p op).acc = removeV1 key p.acc op.tx := by
+  cases op with
+  | check tx peer adm rm =>
+    rcases kcheck_acc key p tx peer adm rm with h | h
+    · exact Or.inl h
+    · exact Or.inr (Or.inl h)
+  | commit tx ok keep => exact Or.inr (Or.inr rfl)
+  | drop e rc =>
+    rcases kdrop_acc key p e rc with h | h
+    · exact Or.inl h
+    · exact Or.inr (Or.inr h)
+
+theorem krunV0_spec (U : List Bytes) : ∀ (ops : List KOp) (p : KPool), Inv key U p.acc →
+    (p.acc.bytes = bytesOf p.acc.entries ∨ Collision key U) → (∀ o ∈ ops, o.tx ∈ U) →
+    Inv key U (krunV0 key p ops).acc ∧
+    ((krunV0 key p ops).acc.bytes = bytesOf (krunV0 key p ops).acc.entries ∨ Collision key U) := by
+  intro ops
+  induction ops with
+  | nil => intro p hi hb _; exact ⟨hi, hb⟩
+  | cons o r ih =>
+    intro p hi hb hu
+    have hou := hu o List.mem_cons_self
+    have hstep : Inv key U (kstepV0 key p o).acc ∧
+        ((kstepV0 key p o).acc.bytes = bytesOf (kstepV0 key p o).acc.entries ∨ Collision key U) := by
+      rcases kstepV0_acc key p o with h | h | h | h
+      · rw [h]; exact ⟨hi, hb⟩
+      · rw [h]; exact v0_step_exact_or_collision key hi hb (.add o.tx) hou
+      · rw [h]; exact v0_step_exact_or_collision key hi hb (.remove o.tx) hou
+      · rw [h]; exact ⟨inv_removeV1 key hi _, removeV1_exact_or key hi hb _⟩
+    exact ih _ hstep.1 hstep.2 (fun o' ho' => hu o' (List.mem_cons_of_mem _ ho'))
+
+theorem krunV1_spec (U : List Bytes) : ∀ (ops : List KOp) (p : KPool), Inv key U p.acc →
+    p.acc.bytes = bytesOf p.acc.entries → (∀ o ∈ ops, o.tx ∈ U) →
+    Inv key U (krunV1 key p ops).acc ∧
+    (krunV1 key p ops).acc.bytes = bytesOf (krunV1 key p ops).acc.entries := by
+  intro ops
+  induction ops with
+  | nil => intro p hi hb _; exact ⟨hi, hb⟩
+  | cons o r ih =>
+    intro p hi hb hu
+    have hou := hu o List.mem_cons_self
+    have hstep : Inv key U (kstepV1 key p o).acc ∧
+        (kstepV1 key p o).acc.bytes = bytesOf (kstepV1 key p o).acc.entries := by
+      rcases kstepV1_acc key p o with h | h | h
+      · rw [h]; exact ⟨hi, hb⟩
+      · rw [h]; exact v1_step_exact key hi hb (.add o.tx) hou
+      · rw [h]; exact v1_step_exact key hi hb (.remove o.tx) hou
+    exact ih _ hstep.1 hstep.2 (fun o' ho' => hu o' (List.mem_cons_of_mem _ ho'))
+
+/-- a cached key: the submission is refused, the pooled transactions stay as they are -/
+theorem kcheck_cached (p : KPool) (tx : Bytes) (peer : Nat) (adm rm : Bool)
+    (h : p.cache.has (key tx) = true) : (kcheck key p tx peer adm rm).acc = p.acc := by
+  unfold kcheck
+  simp only [Cache.push_of_has p.cache (key tx) h]
+  unfold recordK
+  simp only [Bool.not_false, if_true]
+  split <;> rfl
+
+theorem sendersOf_recordK (p : KPool) (k : Bytes) (peer : Nat) (hk : k ∈ p.acc.index) :
+    peer ∈ sendersOf (recordK p k peer) k := by
+  unfold recordK
+  simp only [hk, if_true]
+  generalize sendersOf p k = old
+  unfold sendersOf
+  simp only [List.find?_cons, decide_true]
+  by_cases h : peer ∈ old <;> simp [h]
+
+/-- a submission that is a cache hit or is admitted leaves `peer` recorded under the tx's key
+whenever the index holds that key afterwards -/
+theorem kcheck_records (p : KPool) (tx : Bytes) (peer : Nat) (adm rm : Bool)
+    (hadm : (p.cache.push (key tx)).2 = false ∨ adm = true)
+    (hk : key tx ∈ (kcheck key p tx peer adm rm).acc.index) :
+    peer ∈ sendersOf (kcheck key p tx peer adm rm) (key tx) := by
+  unfold kcheck at hk ⊢
+  simp only at hk ⊢
+  by_cases h1 : (p.cache.push (key tx)).2 = false
+  · simp only [h1, Bool.not_false, if_true] at hk ⊢
+    have hk' : key tx ∈ p.acc.index := by
+      unfold recordK at hk; split at hk <;> exact hk
+    exact sendersOf_recordK _ _ _ hk'
+  · have h1' : (p.cache.push (key tx)).2 = true := by simpa using h1
+    have hadm' : adm = true := by
+      rcases hadm with h | h
+      · exact absurd h h1
+      · exact h
+    simp only [h1', hadm', Bool.not_true, Bool.false_eq_true, if_false] at hk ⊢
+    have hk' : key tx ∈ (admitTx key p.acc tx).index := by
+      unfold recordK at hk; split at hk <;> exact hk
+    exact sendersOf_recordK _ _ _ hk'
+
+theorem nodup_of_map_nodup {α β : Type} (f : α → β) : ∀ (l : List α), (l.map f).Nodup → l.Nodup := by
+  intro l
+  induction l with
+  | nil => intro _; exact List.nodup_nil
+  | cons a r ih =>
+    intro h
+    have h' := List.nodup_cons.1 h
+    exact List.nodup_cons.2 ⟨fun hm => h'.1 (List.mem_map_of_mem (f := f) hm), ih h'.2⟩
+
+end Tmv.Mempool.Keyed
